@@ -120,7 +120,6 @@ SPEC = dict(
              params=[EV], ignore_params=UNUSED, extra_params=THR_V, self_attrs=self_thr_v("_minimum_relative_change"), state=POPREL_STATE,
              returns=BOOL),
         # ---------------------------------------------------------------- SPSATerminationChecker (its own source file)
-    ] + [] * 1 + [  # (SPSA entries below are enabled together with link_Spsa_* in the link file)
         dict(py="SPSATerminationChecker.__init__", gen="Spsa_init", kind="init", source=SPSA_SOURCE,
              params=[("minimum_relative_change", "thr", Q), ("allowed_consecutive_violations", "v", Z), ("maxfev", "maxfev", Opt(Z))],
              self_attrs=SPSA_SELF, state=SPSA_STATE),
@@ -128,5 +127,16 @@ SPEC = dict(
              params=[("n_function_evaluations", "n", Z), ("parameter_values", "par", Z), ("function_value", "f", Q), ("accepted", "acc", BOOL)],
              ignore_params=["step_size"], extra_params=[("thr", Q), ("v", Z), ("maxfev", Opt(Z))], self_attrs=SPSA_SELF, state=SPSA_STATE,
              returns=BOOL),
-    ][:0],
+        # the public accessors (what the C13 correspondence observes after every call)
+        dict(py="SPSATerminationChecker.n_function_evaluations", gen="Spsa_get_nfe", property=True, source=SPSA_SOURCE, params=[],
+             self_attrs=SPSA_SELF, state=SPSA_STATE, returns=Z),
+        dict(py="SPSATerminationChecker.function_value_history", gen="Spsa_get_fv_history", property=True, source=SPSA_SOURCE, params=[],
+             self_attrs=SPSA_SELF, state=SPSA_STATE, returns=List(Q)),
+        dict(py="SPSATerminationChecker.n_function_evaluation_history", gen="Spsa_get_nfe_history", property=True, source=SPSA_SOURCE, params=[],
+             self_attrs=SPSA_SELF, state=SPSA_STATE, returns=List(Z)),
+        dict(py="SPSATerminationChecker.best_function_value", gen="Spsa_get_best_value", property=True, source=SPSA_SOURCE, params=[],
+             self_attrs=SPSA_SELF, state=SPSA_STATE, returns=Ext),
+        dict(py="SPSATerminationChecker.best_parameter_values", gen="Spsa_get_best_parameters", property=True, source=SPSA_SOURCE, params=[],
+             self_attrs=SPSA_SELF, state=SPSA_STATE, returns=Z),
+    ],
 )
